@@ -2,7 +2,10 @@ module verif/harness
 
 go 1.17
 
-require github.com/kubeshark/base v0.0.0
+require (
+	github.com/kubeshark/base v0.0.0
+	golang.org/x/net v0.2.0
+)
 
 require (
 	github.com/fatih/camelcase v1.0.0 // indirect
@@ -16,7 +19,6 @@ require (
 	github.com/pierrec/lz4/v4 v4.1.15 // indirect
 	github.com/rs/zerolog v1.28.0 // indirect
 	github.com/segmentio/kafka-go v0.4.38 // indirect
-	golang.org/x/net v0.2.0 // indirect
 	golang.org/x/sys v0.2.0 // indirect
 	golang.org/x/text v0.4.0 // indirect
 )
